@@ -328,7 +328,14 @@ func (w *world) refHolder(id, nops int) {
 		var cb func(bool, *val, error)
 		if h.recording {
 			cb = func(resolved bool, v *val, err error) {
-				h.told = append(h.told, told{resolved, v, err, c.Tick(), w.rcOfTold(resolved, v, err)})
+				rc := w.rcOfTold(resolved, v, err)
+				h.told = append(h.told, told{resolved, v, err, c.Tick(), rc})
+				if resolved && rc != nil && rc.hasRel && rc.released != nil && c.S.FaultP(40) {
+					// the reference callback (it runs with the RefCount's lock held)
+					// declares the value it was just given invalid
+					c.S.Count("fault:invalidate-from-callback")
+					w.invalidate(rc, "reference callback")
+				}
 			}
 		} else {
 			c.S.Count("fault:nil-arg")
@@ -500,6 +507,19 @@ func (w *world) checkQuiescent(final bool) {
 				c.Fail("C08.E4.final-release-count", "after the final ClearContext the release function of resolver call %d has run %d times", rc.n, rc.rel)
 				return
 			}
+		}
+	}
+	// a result whose released() callback was invoked — even before the resolver
+	// returned it — is dropped: it is not current at a quiescent point
+	for _, rc := range w.calls {
+		if rc.relInvAt != 0 && rc.returned != 0 && rc.hasRel && rc.rel == 0 {
+			// stated by C08 (released no later than shortly after it is invalidated) and by C09 (released() makes the value be dropped)
+			id := "C09.P5.released-ignored"
+			if c.Only == "C08" {
+				id = "C08.E4.invalidated-not-released"
+			}
+			c.Fail(id, "released() was called for resolver call %d (before it returned: %v), but at the next quiescent point its result has not been dropped", rc.n, rc.relInvAt < rc.returned)
+			return
 		}
 	}
 	// P5: released() of the current value makes it be dropped and resolved afresh
